@@ -233,12 +233,16 @@ def pdb_topology(spec, serials=None):
                 atoms.append(a)
                 k += 1
             c.residues.append(r)
+        c._getters = {"atoms": lambda s_: [a_ for r_ in s_.residues for a_ in r_.atoms], "n_atoms": lambda s_: sum(len(r_.atoms) for r_ in s_.residues),
+                      "n_residues": lambda s_: len(s_.residues), "_residues": lambda s_: s_.residues}
+        for r_ in c.residues:
+            r_._getters = {"n_atoms": lambda s_: len(s_.atoms), "_atoms": lambda s_: s_.atoms}
         chains.append(c)
     return Obj(tag="topology", chains=chains, _chains=chains, atoms=atoms, n_atoms=len(atoms), _numAtoms=len(atoms), bonds=[], _bonds=[], _lenient=True)
 
 
-def pdb_written(ctx, top, frames, root, lengths=None, angles=None, bfactors=None, assume_=None):
-    """lines printed by PDBTrajectoryFile.write for the given frames (one MODEL each), header first"""
+def pdb_written(ctx, top, frames, root, lengths=None, angles=None, bfactors=None, assume_=None, ter=None, footer=False):
+    """lines printed by PDBTrajectoryFile.write for the given frames (one MODEL each), header first; with footer=True also those of _write_footer"""
     from .ttext import TText
     mod = ctx.py.mod(PDB)
     fn = ctx.py.func(PDB, "PDBTrajectoryFile.write")
@@ -257,7 +261,12 @@ def pdb_written(ctx, top, frames, root, lengths=None, angles=None, bfactors=None
                     models={"print": prn, "str": lambda ev, c: "S", "ilen": lambda ev, c: len(ev.iterate(ev.ex(c.args[0])))}, parent=root)
         ts.assume = assume_ or assume
         ts.module_env = {"mdtraj": Obj(__version__="V", version=Obj(version="V")), "date": Obj(today=lambda: "D")}
-        ts.run_fn(fn, self=me, positions=x, topology=top, modelIndex=k, unitcell_lengths=lengths, unitcell_angles=angles, bfactors=bfactors)
+        extra = {} if ter is None else {"ter": ter}
+        ts.run_fn(fn, self=me, positions=x, topology=top, modelIndex=k, unitcell_lengths=lengths, unitcell_angles=angles, bfactors=bfactors, **extra)
+    if footer:
+        ts = TenSym({}, funcs=funcs, models={"print": prn, "str": lambda ev, c: "S", "ilen": lambda ev, c: len(ev.iterate(ev.ex(c.args[0])))}, parent=root)
+        ts.assume = assume_ or assume
+        ts.run_fn(ctx.py.func(PDB, "PDBTrajectoryFile._write_footer"), self=me)
     lines_ = [TText(T.flatten(o) + ["\n"]) for o in out]
     return [(l_.literal() if l_.literal() is not None else l_) for l_ in lines_], me
 
